@@ -36,7 +36,7 @@ META = dict(
         'default and custom column names / group and period labels; frames '
         'with repeated row labels; 4-geo '
         'variant where a whole group can be screened away',
-        thorough='3 flaggable geos, 3 candidate dates, 6 geos'),
+        thorough='3 flaggable geos, 3 candidate dates, 6 geos x 13 dates'),
     outside='whether the detectors flag the right geos / dates (statistical '
     'quality): their kernels are stubs; frames larger than the bound',
     stubs=['stats.pearsonr, np.percentile, medcouple, math.exp, np.corrcoef, '
@@ -356,7 +356,8 @@ def jobs(tier, seed):
         name = 'g6-flag%s-dates%s' % (''.join(map(str, fl)), ''.join(map(
             str, cand)))
         out.append(dict(func='screen_job', name=name, weight=50, kwargs=dict(
-            name=name, groups=G6, flaggable=fl, cand=cand, max_s=3000),
+            name=name, groups=G6, flaggable=fl, cand=cand, max_s=3000,
+            n_dates=13, n_pre=9),
                         timeout_s=3300))
   out.append(dict(func='screen_job', name='twin', kwargs=dict(
       name='twin', groups=G5, flaggable=[], cand=[], twin=True)))
